@@ -8,7 +8,7 @@ pub fn sid_valid(v: i128) -> bool { 0 <= v && v <= sid_max() }
 // the two type bits
 pub fn sid_type_bits(v: i128) -> i128 { v % 4 }
 // RFC 9000 2.1 Table 1
-pub fn sid_type_of(client: bool, bidi: bool) -> i128 { (if client { 0 } else { 1 }) + (if bidi { 0 } else { 2 }) }
+pub fn sid_type_of(client: bool, bidi: bool) -> i128 { if client { if bidi { 0 } else { 2 } } else { if bidi { 1 } else { 3 } } }
 
 // ensures of StreamId::initial(initiator, type) -> r
 pub fn sid_initial_post(client: bool, bidi: bool, r: i128) -> bool { r == sid_type_of(client, bidi) }
